@@ -144,6 +144,7 @@ def run_property(prop, tier, seed, jobs, replay=None):
         for f in os.listdir(outdir):
             if f.startswith('replay-'):
                 os.remove(os.path.join(outdir, f))
+    real.sort(key=lambda v: len(json.dumps(v.get('case'))))  # smallest witness first
     for n, v in enumerate(real[:20]):
         if replay:
             path = replay
